@@ -2,6 +2,7 @@ package metadata
 
 import (
 	"fmt"
+	"reflect"
 	"strconv"
 	"strings"
 
@@ -78,4 +79,17 @@ func dwarfTagString(tag enum.DwarfTag) string {
 // quote returns s as a double-quoted string literal.
 func quote(s string) string {
 	return enc.Quote([]byte(s))
+}
+
+// requiredField returns the string representation of a metadata field which
+// LLVM requires to be present; a field that holds no node (e.g. the base type of
+// a pointer to void) is spelled null.
+func requiredField(field interface{}) string {
+	if field == nil {
+		return "null"
+	}
+	if v := reflect.ValueOf(field); (v.Kind() == reflect.Ptr || v.Kind() == reflect.Interface) && v.IsNil() {
+		return "null"
+	}
+	return fmt.Sprint(field)
 }
